@@ -198,7 +198,7 @@ func c01(c *Ctx) {
 	// (b) placement x kind
 	for _, g := range corpus.PlacementGroups() {
 		pkg := "c01.p" + g.Label
-		f, cases := corpus.PlacementFile(pkg, "c01p"+g.Label, g.QueryKinds, g.Cards, g.WithPath)
+		f, cases := corpus.PlacementFileG(pkg, "c01p"+g.Label, g)
 		addPkg(f, func(reg *protoregistry.Files, pt string) []*rpcTarget {
 			var ts []*rpcTarget
 			for _, pc := range cases {
